@@ -438,6 +438,8 @@ def run(ctx):
     thorough = ctx.tier == "thorough"
     n = 1250 if thorough else 40
     for i in range(n):
+        if ctx.over_budget():
+            break
         if not ctx.next_case():
             continue
         ctx.count("cases")
